@@ -404,6 +404,18 @@ theorem hop_serves (nest : Req → Prog → Prog) (a : AppId) (cs : List Nat) (o
   | extSet name v =>
     simp only [hop]
     exact Prog.Serves.step _ _ req_attr_environ fun _ => Prog.Serves.step _ _ trivial fun _ => hk _
+  | reqSet key v =>
+    simp only [hop]
+    apply envGet_serves a _ rfl; intro _
+    refine Prog.Serves.step _ _ req_attr_environ fun _ => ?_
+    refine Prog.Serves.step _ _ trivial fun r => ?_
+    refine serves_ite (hk _) ?_
+    refine Prog.Serves.step _ _ trivial fun _ => ?_
+    refine Prog.Serves.step _ _ req_attr_environ fun _ => ?_
+    generalize envChangedPops key = pops
+    induction pops with
+    | nil => exact hk _
+    | cons c pops ih => exact Prog.Serves.step _ _ trivial fun _ => ih
   | extGet name =>
     simp only [hop]
     exact Prog.Serves.step _ _ req_attr_environ fun _ =>
